@@ -103,7 +103,7 @@ func (p *Plz) Run(timeout time.Duration, args ...string) PlzResult {
 	// side, so unless the caller chose a thread count itself, a moderate one is used (VERIF_PLZ_THREADS).
 	hasN := false
 	for _, a := range args {
-		if a == "-n" || a == "--num_threads" {
+		if a == "-n" || a == "--num_threads" || strings.HasPrefix(a, "--num_threads=") {
 			hasN = true
 		}
 	}
@@ -112,7 +112,8 @@ func (p *Plz) Run(timeout time.Duration, args ...string) PlzResult {
 		if n == "" {
 			n = "6"
 		}
-		args = append([]string{args[0], "-n", n}, args[1:]...)
+		// NB the long form: for `plz test` -n means --num_runs
+		args = append([]string{args[0], "--num_threads", n}, args[1:]...)
 	}
 	full = append(full, args...)
 	ctx, cancel := context.WithTimeout(context.Background(), timeout)
